@@ -28,9 +28,10 @@ Theorem tr_ReadSliceUint8_equiv : forall ref p d data len req, 0 <= p <= go_len 
 Proof.
   intros ref p d data len req Hp. unfold read_slice, tr_ReadSliceUint8.
   rewrite rd_len_strict by exact Hp. pose proof (go_drop_len ref p Hp) as L. unfold go_len in L at 1.
-  destruct (len <? 0) eqn:C0; [reflexivity|]. rewrite L.
-  destruct (go_len ref - p <? len) eqn:C1; [reflexivity|]. cbn [bindc].
-  replace (0 <=? len) with true by lia.
+  rewrite L.
+  (* by the meaning of the two tests, in whatever order and shape the code writes them *)
+  assert (C : (len < 0 \/ go_len ref - p < len) \/ 0 <= len <= go_len ref - p) by lia.
+  destruct C as [[C|C]|C]; decide_conds; try (split_ifs; reflexivity). cbn [bindc].
   destruct (slice_common ref p len Hp ltac:(lia)) as (T & Lg & Dr).
   destruct (len =? 0) eqn:Cz; cbn [bindc].
   - replace len with 0 by lia. rewrite Z.add_0_r. split; reflexivity.
@@ -49,9 +50,10 @@ Theorem tr_ReadBytes_equiv : forall ref p d data len req, 0 <= p <= go_len ref -
 Proof.
   intros ref p d data len req Hp. unfold read_slice, tr_ReadBytes.
   rewrite rd_len_strict by exact Hp. pose proof (go_drop_len ref p Hp) as L. unfold go_len in L at 1.
-  destruct (len <? 0) eqn:C0; [reflexivity|]. rewrite L.
-  destruct (go_len ref - p <? len) eqn:C1; [reflexivity|]. cbn [bindc].
-  replace (0 <=? len) with true by lia.
+  rewrite L.
+  (* by the meaning of the two tests, in whatever order and shape the code writes them *)
+  assert (C : (len < 0 \/ go_len ref - p < len) \/ 0 <= len <= go_len ref - p) by lia.
+  destruct C as [[C|C]|C]; decide_conds; try (split_ifs; reflexivity). cbn [bindc].
   destruct (slice_common ref p len Hp ltac:(lia)) as (T & Lg & Dr).
   unfold go_rd_readfull, go_rd_rest, go_rd_set_pos. cbn [rd_ref rd_pos rd_depth].
   rewrite go_make_len by lia. rewrite T, Lg. rewrite Z.eqb_refl. cbn [negb].
